@@ -332,6 +332,13 @@ func (e *emitter) full(a enc.Name) {
 	fmt.Fprintf(e.w, "FULL %s %s %s\n", nameStr(a), hex.EncodeToString(dg[:]), res)
 }
 
+// csreq records a request for the Content Store probe, which lives in its own harness package (harness/namescs:
+// it depends on fw/table, not on std/encoding alone); the check script feeds these lines to it.
+func (e *emitter) csreq(x, y enc.Name) {
+	e.count("CSREQ")
+	fmt.Fprintf(e.w, "CSREQ %s %s\n", nameStr(x), nameStr(y))
+}
+
 // conventions: black-box probe of the naming-convention table through Component.String()
 func (e *emitter) conventions() {
 	probe := func(t uint64) {
@@ -415,8 +422,8 @@ func (e *emitter) reexec(line string) bool {
 		e.ppair(string(unhx(f[1])), string(unhx(f[2])))
 	case "FULL":
 		e.full(parseName(f[1]))
-	case "CSHIT":
-		e.cshit(parseName(f[1]), parseName(f[2]))
+	case "CSHIT", "CSREQ":
+		e.csreq(parseName(f[1]), parseName(f[2]))
 	default:
 		return false
 	}
@@ -737,7 +744,7 @@ func runFixed(e *emitter) {
 	a := enc.Name{{Typ: 8, Val: []byte{0, 0, 0, 0, 0, 0, 0, 8}}}
 	b := enc.Name{{Typ: 8, Val: []byte{}}, {Typ: 8, Val: []byte{}}}
 	e.pair(a, b) // same hash input before the HashInto fix, different names
-	e.cshit(a, b)
+	e.csreq(a, b)
 	c := enc.Name{{Typ: 50, Val: []byte{0, 5}}}
 	d := enc.Name{{Typ: 50, Val: []byte{5}}}
 	e.pair(c, d) // same String(), different names
@@ -933,7 +940,7 @@ func runGenerated(e *emitter, g *gen, ncases int, thorough bool) {
 		if i%10 == 0 {
 			e.full(u)
 			if len(a) > 0 && len(b) > 0 && len(a.Bytes()) < 4000 && len(b.Bytes()) < 4000 {
-				e.cshit(a, b)
+				e.csreq(a, b)
 			}
 		}
 		// parser inputs: grammar soup, mostly-good URIs, damaged good URIs (the malformed stream)
